@@ -107,24 +107,24 @@ theorem expire_plain_sets (c : Ctx) (s s' : State) (key name n : Bytes) (newT : 
 /-- TTL on a key whose deadline has passed answers 0 instead of -2 -/
 theorem ttl_on_expired_answers_zero_witness :
     let c : Ctx := { db := 0, now := 2000 }
-    let s : State := ⟨[(0, ⟨[(b "k", ⟨.str (b "v"), some 1500⟩)], [b "k"]⟩)], 57⟩
+    let s : State := { dbs := [(0, ⟨[(b "k", ⟨.str (b "v"), some 1500⟩)], [b "k"]⟩)], mem := 57 }
     ((handleTTL c [b "ttl", b "k"]).run c s).2 = .done (.ok (b ":0\r\n")) := by decide
 
 /-- a value written after the deadline has passed inherits the stale deadline and is itself invisible -/
 theorem set_inherits_stale_deadline_witness :
     let c : Ctx := { db := 0, now := 2000 }
-    let s : State := ⟨[(0, ⟨[(b "k", ⟨.str (b "old"), some 1500⟩)], [b "k"]⟩)], 59⟩
+    let s : State := { dbs := [(0, ⟨[(b "k", ⟨.str (b "old"), some 1500⟩)], [b "k"]⟩)], mem := 59 }
     (((handleSet c [b "set", b "k", b "new"]).run c s).1.lookup 0 (b "k")).map (·.exp) = some (some 1500) := by decide
 
 /-- EXPIRE revives a key whose deadline has passed -/
 theorem expire_revives_expired_witness :
     let c : Ctx := { db := 0, now := 2000 }
-    let s : State := ⟨[(0, ⟨[(b "k", ⟨.str (b "v"), some 1500⟩)], [b "k"]⟩)], 57⟩
+    let s : State := { dbs := [(0, ⟨[(b "k", ⟨.str (b "v"), some 1500⟩)], [b "k"]⟩)], mem := 57 }
     obsAt 2000 ((handleExpire c [b "expire", b "k", b "10"]).run c s).1 0 (b "k") = some ⟨.str (b "v"), some 12000⟩ := by decide
 
 /-- non-vacuity of `served_until_deadline`: exactly at the deadline the key is still served -/
 example : let c : Ctx := { db := 0, now := 1500 }
-    let s : State := ⟨[(0, ⟨[(b "k", ⟨.str (b "v"), some 1500⟩)], [b "k"]⟩)], 57⟩
+    let s : State := { dbs := [(0, ⟨[(b "k", ⟨.str (b "v"), some 1500⟩)], [b "k"]⟩)], mem := 57 }
     getValues c s [b "k"] = (s, [Val.str (b "v")]) := by decide
 
 end Sugar.Props.C04
